@@ -2362,10 +2362,10 @@ struct Explorer {
         for (size_t qi = 0; qi < v.stmts.size(); ++qi) {
           const Stmt& q = v.stmts[qi];
           if (qi == pi || q.phony) continue;
+          // (the consumer knows of the node through its own dyndep file, or names it in the manifest, where it is a source
+          // file as far as the manifest goes: either way only the producer's dyndep file says who makes it)
           bool reads = find(q.spec.reads.begin(), q.spec.reads.end(), n) != q.spec.reads.end();
-          bool declared = false;
-          for (auto& x : q.AllDeclaredInputs()) if (x == n) declared = true;
-          if (!reads || declared) continue;
+          if (!reads) continue;
           // declared-input closure of q
           set<string> seen;
           vector<string> todo = q.AllDeclaredInputs();
